@@ -973,10 +973,15 @@ func orderByBindingsChecker() ClauseHook {
 		}
 		// If dups exist rewrite the order by SortConfig.
 		if dups {
-			s.orderBy = table.SortConfig{}
-			for b, d := range seen {
-				s.orderBy = append(s.orderBy, table.SortConfig{{Binding: b, Desc: d}}...)
+			// Keep the first occurrence of each binding, in the order written.
+			orderBy, added := table.SortConfig{}, make(map[string]bool)
+			for _, cfg := range s.orderBy {
+				if !added[cfg.Binding] {
+					added[cfg.Binding] = true
+					orderBy = append(orderBy, table.SortConfig{{Binding: cfg.Binding, Desc: cfg.Desc}}...)
+				}
 			}
+			s.orderBy = orderBy
 		}
 		return hook, nil
 	}
